@@ -221,8 +221,18 @@ def generate(repo):
         return cases[name]
     L = _Lit(where + ":wasmCWriteLiteral", ps[0], ps[2])
     i32 = L.case(blk("wasmValueTypeI32"))
-    if i32 != ("leaf", [("stringBuilderAppendI32", [f"{ps[2]}.i32"]), ("text", b"U")]):
-        raise ExtractFail("c.c", "i32 literal is no longer `<%i>U`")
+
+    def i32_leaves(t):
+        return [t[1]] if t[0] == "leaf" else i32_leaves(t[2]) + i32_leaves(t[3])
+    sufs = []
+    for ev in i32_leaves(i32):
+        # every path: the decimal digits of value.i32, then (possibly) a text
+        if not ev or ev[0] != ("stringBuilderAppendI32", [f"{ps[2]}.i32"]) or len(ev) > 2 or (len(ev) == 2 and ev[1][0] != "text"):
+            raise ExtractFail("c.c", "i32 literal is no longer `<%i><suffix>`")
+        sufs.append(ev[1][1].decode("ascii") if len(ev) == 2 else "")
+    # the suffix is a FACT (Props/C07.i32_literal_always_unsigned): written on every path (whatever the value's sign), and which
+    i32_always = i32[0] == "leaf" or len(set(sufs)) == 1
+    i32_suffix = max(sufs, key=len)
     i64 = L.case(blk("wasmValueTypeI64"))
     if i64[0] != "leaf" or len(i64[1]) != 3 or i64[1][0][0] != "text" or i64[1][2][0] != "text" \
             or i64[1][1] != ("stringBuilderAppendI64", [f"{ps[2]}.i64"]):
@@ -249,7 +259,9 @@ def generate(repo):
         out.append(f"def {n}LitCfg : FloatLitCfg := {{ expMask := {c['emask']}, expCmp := {c['ecmp']}, signMask := {c['smask']}, "
                    f"sigMask := {c['sigmask']}, negZero := {c['negzero']}, negZeroText := {lean_str(c['negzero_text'])}, "
                    f"nanPrefix := {lean_str(c['nan_prefix'])}, hexFormatter := {lean_str(c['hexfn'])}, decFormatter := {lean_str(c['decfn'])} }}")
-    out.append(f"def i32LitSuffix : String := \"U\"")
+    out.append(f"def i32LitSuffix : String := {lean_str(i32_suffix)}")
+    out.append("/-- the suffix is appended on EVERY path of the i32 case (it does not depend on the value, e.g. its sign) -/")
+    out.append(f"def i32LitSuffixAlways : Bool := {'true' if i32_always else 'false'}")
     out.append(f"def i64LitPrefix : String := {lean_str(i64pre)}")
     out.append(f"def i64LitSuffix : String := {lean_str(i64suf)}")
     out.append("")
